@@ -177,6 +177,10 @@ def units(tier):
     for X, fi in (('corr32', False), ('corr32', True), ('gen32', True)):
         us.append(Unit('C10/S/pn_linesearch[X=%s,intercept=%s]' % (X, fi), ST.u_pn_linesearch, dict(X=X, fit_intercept=fi),
                        wall_s=120, timeout_ms=8000, patched=True))
+    # CSC-only constants come from a power method: it must start from a random vector (a fixed start has matrices on which it
+    # returns 0, so that the CSC run silently freezes a block the dense run updates) -- C09's unit re-used
+    from checks import c09
+    us.append(Unit('C10/K/spectral_norm/random-start', c09.u_power_start, {}, wall_s=60))
     return us
 
 
